@@ -47,23 +47,33 @@ theorem history_independent (struc : C → P) (hist : List C) (c : C) :
   rw [(inv_query struc _ c (inv_run struc [] hist (inv_init struc))).2]
   rfl
 
-/-- hence every verdict of a history equals the verdict of the same call issued first -/
+/-- hence every verdict of a history equals the verdict of the same call issued first — whatever the other
+records were, in particular records with the same letters but another topology -/
 theorem verdicts_independent (spec : C → ClassSpec) (st : CState C Pat)
-    (h : Inv (fun c => (spec c).pat) st) (hist : List (C × Word)) :
-    histVerdicts spec st hist = hist.map (fun q => (spec q.1).isValid q.2) := by
+    (h : Inv (fun c => (spec c).pat) st) (hist : List (C × Word × Bool)) :
+    histVerdicts spec st hist = hist.map (fun q => (spec q.1).isValidC q.2.1 q.2.2) := by
   induction hist generalizing st with
   | nil => rfl
   | cons q qs ih =>
-    obtain ⟨c, w⟩ := q
+    obtain ⟨c, w, circ⟩ := q
     obtain ⟨h1, h2⟩ := inv_query (fun c => (spec c).pat) st c h
     simp only [histVerdicts, List.map_cons]
     rw [ih _ h1]
     congr 1
     rw [h2]
 
-theorem verdicts_fresh (spec : C → ClassSpec) (hist : List (C × Word)) :
-    histVerdicts spec [] hist = hist.map (fun q => (spec q.1).isValid q.2) :=
+theorem verdicts_fresh (spec : C → ClassSpec) (hist : List (C × Word × Bool)) :
+    histVerdicts spec [] hist = hist.map (fun q => (spec q.1).isValidC q.2.1 q.2.2) :=
   verdicts_independent spec [] (inv_init _) hist
+
+/-- on circular records this is the verdict of the typing model used everywhere else -/
+theorem isValidC_circular (c : ClassSpec) (w : Word) : c.isValidC w true = c.isValid w := by
+  unfold ClassSpec.isValidC ClassSpec.isValid ClassSpec.matchSeq
+  cases search c.pat w true with
+  | none => rfl
+  | some m =>
+    simp only []
+    by_cases hc : validCuts c.geom (m.group w 0) > 2 <;> simp [hc]
 
 /-- the statement is not vacuous: resolving the cache through the parents (the shape of the defect found
 on the pinned tree) breaks it on a two-class hierarchy — class 1 derives from class 0, priming the parent
